@@ -188,7 +188,7 @@ func (o *diffOracle) differ(live, fresh client.Object, strategyMatches []v1beta1
 					if hr.Spec.Rules[i].BackendRefs[j].Weight == nil {
 						hr.Spec.Rules[i].BackendRefs[j].Weight = &one // Gateway API: an unspecified weight is 1
 					}
-					if len(strategyMatches) > 0 && string(hr.Spec.Rules[i].BackendRefs[j].Name) == o.tr.stableSvc {
+					if n := string(hr.Spec.Rules[i].BackendRefs[j].Name); len(strategyMatches) > 0 && (n == o.tr.stableSvc || n == o.tr.canarySvc) {
 						// match step: the weight of the stable backend is not part of the step (documented: it is reset, the original value is not kept)
 						hr.Spec.Rules[i].BackendRefs[j].Weight = &one
 					}
